@@ -46,8 +46,13 @@ struct Frame {
 const F_MULTI: u64 = 2;
 
 struct C13Script {
+    /// Unit of the completion-delay grid (the retry interval, or 100 ms if that is degenerate).
     interval: u64,
     success_weight: u64,
+    /// With "never speculate" a call whose only running execution fails ignorably waits
+    /// for a timer that is practically never due (by design, not a hang): such runs
+    /// script real answers only.
+    real_only: bool,
     frames: BTreeMap<u64, Vec<Frame>>,
 }
 
@@ -70,7 +75,8 @@ impl Script for C13Script {
         // Completion delays on the grid 0, d/2, d, 3d/2, ... so that ties between the
         // speculative timer and completions are common.
         let delay = d / 2 * tape::weighted("c13:delay", &[3, 3, 4, 3, 3, 2, 2, 1]) as u64;
-        let out = match tape::weighted("c13:outcome", &[self.success_weight, 2, 4, 1]) {
+        let weights = if self.real_only { [self.success_weight, 2, 0, 0] } else { [self.success_weight, 2, 4, 1] };
+        let out = match tape::weighted("c13:outcome", &weights) {
             0 => Out::Success,
             1 => Out::Definitive(tape::choose("c13:definitive", 7) as u8),
             2 => Out::Ignorable(tape::choose("c13:ignorable", 3) as u8),
@@ -172,11 +178,20 @@ pub fn run(req: &RunRequest) -> Value {
         let plan = Plan {
             nodes: tape::range("c13:nodes", 2, 6) as usize,
             max_spec: tape::choose("c13:max", 5) as usize,
-            interval: [50, 100, 200][tape::choose("c13:interval", 3) as usize] * MS,
+            // 1 in 10 runs each: the degenerate but legal intervals zero (all allowed
+            // executions may start at once) and Duration::MAX ("never"; u64::MAX here).
+            interval: match tape::weighted("c13:interval", &[8, 8, 8, 3, 3]) {
+                0 => 50 * MS,
+                1 => 100 * MS,
+                2 => 200 * MS,
+                3 => 0,
+                _ => u64::MAX,
+            },
             fallthrough: !tape::chance("c13:default_retry", 1, 3),
             requests: tape::range("c13:requests", 1, 8) as usize,
             success_weight: [1, 3, 8][tape::choose("c13:success_weight", 3) as usize],
         };
+
         let mut cluster = Cluster::new("c13");
         for i in 0..plan.nodes {
             cluster.add_node("dc1", "r1", 0, vec![(i as i64) * 1000 - 2500]);
@@ -228,8 +243,9 @@ async fn main(plan: Plan) -> Outcome {
     {
         let mut w = world::world();
         w.script = Some(Box::new(C13Script {
-            interval: plan.interval,
+            interval: if plan.interval == 0 || plan.interval == u64::MAX { 100 * MS } else { plan.interval },
             success_weight: plan.success_weight,
+            real_only: plan.interval == u64::MAX,
             frames: BTreeMap::new(),
         }));
     }
@@ -237,7 +253,7 @@ async fn main(plan: Plan) -> Outcome {
         .request_timeout(None)
         .speculative_execution_policy(Some(Arc::new(SimpleSpeculativeExecutionPolicy {
             max_retry_count: plan.max_spec,
-            retry_interval: Duration::from_nanos(plan.interval),
+            retry_interval: if plan.interval == u64::MAX { Duration::MAX } else { Duration::from_nanos(plan.interval) },
         })));
     pb = if plan.fallthrough {
         pb.retry_policy(Arc::new(FallthroughRetryPolicy))
@@ -452,7 +468,7 @@ async fn main(plan: Plan) -> Outcome {
                     // For a later page the reference instant is the arrival of its first
                     // execution (one latency after the fibers' common start).
                     let slack = if api == 4 { 4 * MS } else { MS };
-                    if k >= 1 && f.arrived + slack < g0 + k as u64 * plan.interval {
+                    if k >= 1 && f.arrived + slack < g0.saturating_add((k as u64).saturating_mul(plan.interval)) {
                         out.violation(
                             "c13.started_too_early",
                             format!("execution {k} reached its node {} ms after the (page) request started, before {k} x interval: {ctx}", (f.arrived - g0) / MS),
@@ -548,6 +564,8 @@ async fn main(plan: Plan) -> Outcome {
     world::sleep_ns(SEC).await;
     out.nontrivial = spec_started > 0;
     out.count("speculative_executions_seen", spec_started);
+    out.count("runs_with_interval_zero", (plan.interval == 0) as u64);
+    out.count("runs_with_interval_never", (plan.interval == u64::MAX) as u64);
     out.sample = json!({"nodes": plan.nodes, "max": plan.max_spec, "interval_ms": plan.interval / MS, "fallthrough": plan.fallthrough, "histories": hist});
     out
 }
